@@ -84,7 +84,7 @@ func (x *Exec) callFunc(st *State, fr *Frame, in *ssa.Call, callee *ssa.Function
 		if ct == nil {
 			ct = x.contract
 		}
-		return x.applyContract(st, fr, in, callee, ct, args)
+		return x.applyContract(st, fr, in, callee, ct, args, bindings)
 	}
 	if callee == x.root {
 		unsup("recursive call of %s without contract", key)
@@ -243,6 +243,24 @@ func (x *Exec) havocWrites(st *State, ws *writeSet, why string) {
 		st.heaps[k] = nh
 		x.heapTypes[k] = t
 	}
+	if !ws.all {
+		var fk []string
+		for k := range ws.fresh {
+			if _, also := ws.heaps[k]; !also {
+				fk = append(fk, k)
+			}
+		}
+		sort.Strings(fk)
+		for _, k := range fk {
+			t := ws.fresh[k]
+			hpre := x.heap(st, t)
+			nh := x.S.Const("hf", x.te.HeapSort(t))
+			q := x.S.Fresh("qr")
+			x.assume(st, fmt.Sprintf("(forall ((%s Int)) (! (=> (< %s %s) (= (select %s %s) (select %s %s))) :pattern ((select %s %s))))", q, q, st.nr, nh, q, hpre, q, nh, q))
+			st.heaps[k] = nh
+			x.heapTypes[k] = t
+		}
+	}
 	if ws.alloc || ws.all {
 		nn := x.S.Const("nrh", "Int")
 		x.assume(st, "(>= "+nn+" "+st.nr+")")
@@ -251,7 +269,7 @@ func (x *Exec) havocWrites(st *State, ws *writeSet, why string) {
 }
 
 // applyContract: modular call — assert pre, havoc modifies, assume post.
-func (x *Exec) applyContract(st *State, fr *Frame, in *ssa.Call, callee *ssa.Function, ct *Contract, args []Val) Val {
+func (x *Exec) applyContract(st *State, fr *Frame, in *ssa.Call, callee *ssa.Function, ct *Contract, args []Val, bindings []Val) Val {
 	key := FuncKey(callee)
 	x.usedContracts[key] = true
 	vars := map[string]Val{}
@@ -268,7 +286,21 @@ func (x *Exec) applyContract(st *State, fr *Frame, in *ssa.Call, callee *ssa.Fun
 		}
 		vars[p.Name()] = a
 	}
+	for i, fv := range callee.FreeVars {
+		if i >= len(bindings) {
+			break
+		}
+		b := bindings[i]
+		if b.DP != nil && b.DP.Cell != nil && len(b.DP.Path) == 0 {
+			if cv, ok := st.cells[*b.DP.Cell]; ok && cv.Clo == nil && cv.Fn == nil && cv.DP == nil && cv.S != "!unmergeable" {
+				if _, clash := vars[fv.Name()]; !clash {
+					vars[fv.Name()] = cv
+				}
+			}
+		}
+	}
 	pkg := pkgOf(callee)
+	x.declareGhosts(st, ct)
 	pre := st.clone()
 	sc := &SpecCtx{x: x, st: pre, old: pre, vars: vars, pkg: pkg}
 	// implicit precondition: pointer receiver non-nil
@@ -296,6 +328,7 @@ func (x *Exec) applyContract(st *State, fr *Frame, in *ssa.Call, callee *ssa.Fun
 		x.assume(st, "(>= "+nn+" "+st.nr+")")
 		st.nr = nn
 	}
+	x.havocGhosts(st, ct)
 	// results
 	res := x.freshResult(st, in.Type())
 	post := &SpecCtx{x: x, st: st, old: pre, vars: map[string]Val{}, pkg: pkg}
